@@ -1101,6 +1101,16 @@ class H2Connection:
         :returns: Nothing
         """
         self.config.logger.debug("Close connection")
+
+        # The GOAWAY frame has to fit into one frame: find out before the
+        # connection is closed and before anything is queued for sending.
+        goaway_size = 8 + len(additional_data or b'')
+        if goaway_size > self.max_outbound_frame_size:
+            raise FrameTooLargeError(
+                "GOAWAY frame of %d bytes exceeds maximum frame size %d" %
+                (goaway_size, self.max_outbound_frame_size)
+            )
+
         self.state_machine.process_input(ConnectionInputs.SEND_GOAWAY)
 
         # Additional_data must be bytes
@@ -1212,6 +1222,15 @@ class H2Connection:
             # machine cannot tell a client from a server.
             raise ProtocolError(
                 "Clients cannot advertise alternative services"
+            )
+
+        # The ALTSVC frame has to fit into one frame: find out before any
+        # state machine is consulted and before anything is queued.
+        altsvc_size = 2 + len(origin or b'') + len(field_value)
+        if altsvc_size > self.max_outbound_frame_size:
+            raise FrameTooLargeError(
+                "ALTSVC frame of %d bytes exceeds maximum frame size %d" %
+                (altsvc_size, self.max_outbound_frame_size)
             )
 
         self.state_machine.process_input(
